@@ -93,6 +93,22 @@ BASES = {
 }
 
 
+def get_base(base):
+    """a named base object, or '["univ", fmt, seed, [edits]]': a state of the format's universe (thorough tier)"""
+    if base in BASES:
+        return BASES[base]
+    import json
+    _, fmt, seed, edits = json.loads(base)
+    mod = {"ci": CI, "im": IM, "ti": TI}[fmt]
+
+    def build():
+        spec = dict(mod.SEEDS)[seed]()
+        for e in edits:
+            spec = mod.apply_spec(spec, e)
+        return mod.build(spec)
+    return build, (_ti_dump if fmt == "ti" else None)
+
+
 def _corrupt_ci_label(o):
     o.compose.label = "GA"
 
@@ -268,7 +284,7 @@ REAL_BY_NAME = {"%s/%s" % (b, f.__name__[9:]): (b, f) for b, f in REAL}
 
 
 def _do_dump(base, obj, path):
-    dumper = BASES[base][1]
+    dumper = get_base(base)[1]
     if dumper:
         dumper(obj, path)
     else:
@@ -278,7 +294,7 @@ def _do_dump(base, obj, path):
 def trace_dump(base):
     """One instrumented, un-faulted dump: the validator invocations in execution order + how many belong to the top-level check."""
     install_shims()
-    obj = BASES[base][0]()
+    obj = get_base(base)[0]()
     tmp = tempfile.mkdtemp(prefix="c18-")
     try:
         Ctl.active, Ctl.count, Ctl.fail_at, Ctl.log = True, 0, None, []
@@ -306,13 +322,13 @@ def eval_fault(base, i, pre_existing, corrupt=None):
         path = os.path.join(tmp, "metadata.out")
         before = None
         if pre_existing:
-            _do_dump(base, BASES[base][0](), path)
+            _do_dump(base, get_base(base)[0](), path)
             with open(path, "rb") as f:
                 before = f.read()
             if pre_existing == "hardlinked":
                 os.link(path, os.path.join(tmp, "second-name"))
                 ino = os.stat(path).st_ino
-        obj = BASES[base][0]()
+        obj = get_base(base)[0]()
         if corrupt:
             REAL_BY_NAME[corrupt][1](obj)
         Ctl.active, Ctl.count, Ctl.fail_at, Ctl.log = True, 0, i, []
@@ -355,16 +371,42 @@ def untouched(o):
 
 def units(tier, seed):
     bases = sorted(BASES)
-    return [("faults", b) for b in bases] + [("real", n) for n in sorted(REAL_BY_NAME)]
+    us = [("faults", b) for b in bases] + [("real", n) for n in sorted(REAL_BY_NAME)]
+    if tier == "thorough":
+        # every state within one edit of every seed is a base object, too (its dump has its own sequence of validator calls)
+        for fmt, mod in (("ci", CI), ("im", IM), ("ti", TI)):
+            for name, mk in mod.SEEDS:
+                edits = mod.edits(mk())
+                k = seed % max(len(edits), 1)
+                edits = edits[k:] + edits[:k]
+                for i in range(0, len(edits), 4):
+                    us.append(("faults-univ", fmt, name, edits[i:i + 4]))
+    return us
 
 
 def run_unit(unit, acc):
+    if unit[0] == "faults-univ":
+        import json
+        _, fmt, name, edits = unit
+        for e in edits:
+            base = json.dumps(["univ", fmt, name, [e]])
+            try:
+                log, top = trace_dump(base)
+            except (ValueError, TypeError):
+                continue                                 # (this state is not a valid object: nothing to dump)
+            if log:
+                run_unit(("faults", base), acc)
+        return
     if unit[0] == "faults":
         base = unit[1]
         log, top = trace_dump(base)
         if not log:
             raise RuntimeError("no validator invocation observed while dumping %s" % base)
-        acc.extra.setdefault("injection_points", {})[base] = len(log)
+        if base.startswith("["):
+            acc.n["injection_points_in_universe_state_bases"] += len(log)
+            acc.n["universe_state_bases"] += 1
+        else:
+            acc.extra.setdefault("injection_points", {})[base] = len(log)
         for i in range(1, len(log) + 1):
             for pre in (False, True, "hardlinked"):
                 o = eval_fault(base, i, pre)
